@@ -32,6 +32,11 @@ GRAMMARS = [
     {"<start>": ["<doc>"], "<doc>": ["<line><br /><doc>", "<line>"], "<line>": ["t", "<b >u"]},
     # a recursive part of the host from which the inserted nonterminal cannot be reached
     {"<start>": ["<prog>"], "<prog>": ["<decl>;<expr>", "<expr>"], "<decl>": ["d"], "<expr>": ["<expr>+<term>", "<term>"], "<term>": ["1", "(<expr>)"]},
+    # a chain of unit productions above the insertion point (<block_statement> ::= <statement>, <statement> ::= <block>)
+    {"<start>": ["<statement>"], "<statement>": ["<block>", "<id>;"], "<block>": ["{<statements>}"], "<statements>": ["<block_statement><statements>", ""],
+     "<block_statement>": ["<statement>", "<declaration>"], "<declaration>": ["int <id>;"], "<id>": ["a", "b"]},
+    # the start symbol occurs on a right-hand side
+    {"<start>": ["<stmt>;<start>", "<stmt>"], "<stmt>": ["{<start>}", "<id>"], "<id>": ["a", "b"]},
 ]
 G = GRAMMARS[GI]
 CAN = canonical(G)
@@ -73,11 +78,26 @@ def _insert(ch, ctx_closed=False) -> bool:
        ctx_closed=True : exactly those cases (own obligation: known finding on the pinned tree)"""
     host_spec = vlib.decode_tree(G, "<start>", ch, allow_open=True, close_rest=False)
     n_calls = 0
+    # hosts: the decoded tree and, for every other nonterminal, its first inner subtree (a host need not be rooted at <start>;
+    # for these only 'context addition' alone and all methods together are run)
+    specs = [(host_spec, range(1, 8))]
+    seen = {"<start>"}
+
+    def sub(spec):
+        if isinstance(spec, str) or spec[1] is None:
+            return
+        if spec[0] not in seen:
+            seen.add(spec[0])
+            specs.append((spec, (4, 7)))
+        for c in spec[1]:
+            sub(c)
+    sub(host_spec)
     for name, mk in INS:
-        for methods in range(1, 8):
+      for the_spec, the_methods in specs:
+        for methods in the_methods:
             if ((methods & 4) != 0 and name.endswith(" closed")) != ctx_closed:
                 continue
-            host = vlib.mk_tree(host_spec)
+            host = vlib.mk_tree(the_spec)
             new = mk()
             what = "insert_tree(%s into %r, methods=%s)" % (name, str(host), bin(methods))
             try:
